@@ -42,9 +42,13 @@ def run_instant(case):
     pp_date = e["date_text"][("blank", "zero2")[(case["seed"] // 3) % 2]] if "date_text" in e else f"{y:4d}{e['month']:4d}{e['day']:4d}"
     ctx = dict(scene_center_time=compact + frac, creation_datetime=compact + f"{e['mmm'] // 10:02d}", pp_date=pp_date,
                pp_doy=doy, pp_sod=sod, att_doy=doy, att_ms=ms)
+    # a second polarisation of the same scan whose lines start a fraction of a pulse interval later, inside the same millisecond
+    us2 = us + 367 if us + 367 < 1000 else us - 367
     lo = {(0, 0, "sensor_acquisition_date"): (y, doy, ms), (0, 0, "sensor_acquisition_date_microseconds"): ms * 1000 + us,
-          (0, 1, "sensor_acquisition_date"): (y, doy, ms), (0, 1, "sensor_acquisition_date_microseconds"): ms * 1000 + us}
-    b = product.build_product(level="1.1", images=(("HH", None, 2, 1),), seed=case["seed"], ctx=ctx, line_overrides=lo, leader=dict(np=2))
+          (0, 1, "sensor_acquisition_date"): (y, doy, ms), (0, 1, "sensor_acquisition_date_microseconds"): ms * 1000 + us,
+          (1, 0, "sensor_acquisition_date"): (y, doy, ms), (1, 0, "sensor_acquisition_date_microseconds"): ms * 1000 + us2,
+          (1, 1, "sensor_acquisition_date"): (y, doy, ms), (1, 1, "sensor_acquisition_date_microseconds"): ms * 1000 + us2}
+    b = product.build_product(level="1.1", images=(("HH", None, 2, 1), ("VH", None, 2, 1)), seed=case["seed"], ctx=ctx, line_overrides=lo, leader=dict(np=2))
     url = imgrun.put_on_fs(b, "local", f"c17_{case['seed']}")
     out = {"case": case, "bad": []}
     day_ns = (e["daynumber"] + EPOCH2000) * 86400 * 10**9
@@ -52,7 +56,14 @@ def run_instant(case):
     want_us = want_ms + us * 1000
     try:
         try:
-            tree = ceos_alos2.open_alos2(url, backend_options=dict(use_cache=False, records_per_chunk=2))
+            # the three ways a tree comes into being: parsed; parsed while its index is written; served from that index
+            how = (case["seed"] // 6) % 3
+            if how == 0:
+                tree = ceos_alos2.open_alos2(url, backend_options=dict(use_cache=False, records_per_chunk=2))
+            else:
+                tree = ceos_alos2.open_alos2(url, backend_options=dict(use_cache=False, create_cache=True, records_per_chunk=2))
+                if how == 2:
+                    tree = ceos_alos2.open_alos2(url, backend_options=dict(use_cache=True, records_per_chunk=3))
         except BaseException as ex:  # noqa: B902
             out["bad"].append(("open", f"{type(ex).__name__}: {str(ex)[:150]}", None))
             return out
@@ -72,6 +83,8 @@ def run_instant(case):
             "image-line-ms": (ns(img["sensor_acquisition_date"].values[0]), want_ms),
             "image-line-us": (ns(img["sensor_acquisition_date_microseconds"].values[0]), want_us),
             "image-line2-us": (ns(img["sensor_acquisition_date_microseconds"].values[1]), want_us),
+            "image2-line-us": (ns(tree["imagery/VH"]["sensor_acquisition_date_microseconds"].values[0]), want_ms + us2 * 1000),
+            "image2-line-ms": (ns(tree["imagery/VH"]["sensor_acquisition_date"].values[1]), want_ms),
             "attitude-time": (ns(tree["metadata/attitude/attitude"]["time"].values[0]), want_ms),
             "attitude-time-last": (ns(tree["metadata/attitude/attitude"]["time"].values[-1]), want_ms),
             "attitude-rates-time": (ns(tree["metadata/attitude/rates"]["time"].values[0]), want_ms),
@@ -123,11 +136,11 @@ def body(chk):
         extra.append({"y": y, "doy": doy, "ms": ms, "us": rnd.randrange(1000), "month": d.month, "day": d.day, "daynumber": (d - dt.date(2000, 1, 1)).days,
                       "hh": ms // 3600000, "mm": (ms // 60000) % 60, "ss": (ms // 1000) % 60, "mmm": ms % 1000})
     cases = [dict(inst=i, seed=chk.seed + k) for k, i in enumerate(insts + extra)]
-    lc.prepare_layouts([dict(level="1.1", images=(("HH", None, 2, 1),), leader=dict(np=2))])
+    lc.prepare_layouts([dict(level="1.1", images=(("HH", None, 2, 1), ("VH", None, 2, 1)), leader=dict(np=2))])
     results = checklib.pmap(run_instant, cases, chk.scratch, chunksize=8)
     for res in results:
         i = res["case"]["inst"]
-        chk.count(9, f"{i['y']}-{i['doy']}-{i['ms']}-{i['us']}")
+        chk.count(11, f"{i['y']}-{i['doy']}-{i['ms']}-{i['us']}")
         seen = set()
         for key, msg, d in res["bad"]:
             if key in seen:
